@@ -127,6 +127,31 @@ CHECKS["C18"] = dict(category="model_checking",
     design_ref="5/C18",
     note="The scripted Impl honours cancellation like a real transport. Termination bound after Close: 750 ms (first back-off uses the library default, DESIGN note N5) + 20x RetryMaxDelay + 5 s.",
     technique="TLA+ model (Reconnect.tla + mutants, incl. liveness) exhaustive TLC; trace validation of real client.Reconnect executions (ReconnectTrace.tla)")
+SEQ_NOTE = "Trusts TLC/Json and the driver's faithful logging of calls and results (no oracle logic in Go). Deterministic sequential component: a replay is a re-run of the check."
+CHECKS.update({
+    "C12": dict(category="model_checking",
+        text="Ingest.tla defines the shape lattices of remote messages (notifications x cache state classes, subscribe requests, responses) and the contract (never a panic; a refused single-item message changes nothing); "
+             "TLC enumerates every tuple (about 130 000 vectors), the driver materialises them as real protobuf messages and feeds them to Cache.GnmiUpdate (direct and as the collector stamps them, followed by "
+             "UpdateMetadata/UpdateSize/Reset), Server.Subscribe, client.CacheClient and cli.QueryDisplay in every display type under recover(); TLC validates the recorded outcomes against the contract. Exhaustive over the lattice.",
+        design_ref="5/C12", note=SEQ_NOTE + " Only protobuf-valid structured messages are enumerated; coverage-guided byte-level fuzzing of the wire format is outside this technique (DESIGN section 6).",
+        technique="TLA+ generator-and-contract spec (Ingest.tla): TLC enumerates the shape lattice as test vectors -> real entry points under recover() -> TLC validates outcomes (IngestTrace.tla)"),
+    "C17": dict(category="model_checking",
+        text="TargetConfig.tla is model-checked exhaustively over a universe of 5292 configurations x 2 loads (ReplayEqualsCurrent, CurrentValid, Monotonic, RejectedSilent, NoCallForUnchanged); on the real target.Config every valid "
+             "base of the small universe followed by sampled (thorough: all) second configurations and random histories over up to 8 targets / 4 requests are validated by TLC: accept/reject, exact handler-call set, Current(), replay of calls = Current.",
+        design_ref="5/C17", note=SEQ_NOTE + " Callers do not mutate a configuration object after loading it.",
+        technique="TLA+ spec (TargetConfig.tla) exhaustive TLC + trace validation of real target.Config (TargetConfigTrace.tla)"),
+    "C19": dict(category="model_checking",
+        text="PathValue.tla defines ToStrings, CompletePath, the scalar kind map and the Equal contract as operators (laws model-checked over a small universe); the real functions are evaluated on thousands of random paths "
+             "(each 30 times on fresh maps), all origin combinations, client queries through the wire, all supported Go scalars incl. extreme widths, and all 32x32 TypedValue pairs under recover(); TLC validates every line against the operators.",
+        design_ref="5/C19", note=SEQ_NOTE + " Key-name order is supplied as ranks; float precision is compared at source precision; one open known finding (query element ending in '/').",
+        technique="TLA+ operators (PathValue.tla) + trace validation of the real path/value/client functions (PathValueTrace.tla)"),
+    "C20": dict(category="model_checking",
+        text="FakeQueue.tla specifies the generator (timestamp buckets, advance-and-reinsert, repeat counts) and is model-checked for Ordered/BucketsSorted/BucketsNonEmpty; random configurations of every value kind are run twice with "
+             "the same seed on the real queue.UpdateQueue and every emission is validated by TLC: a value of the first bucket with exactly the pending timestamp/content/repeat, inferred draws within delta bounds / ranges with clamping / option lists, "
+             "exact repeat counts, sync after the first emission of every value, identical sequences for identical seeds.",
+        design_ref="5/C20", note=SEQ_NOTE + " The pseudo-random draw is inferred from the same value's next emission in the recorded sequence; string-list values and FixedQueue are not covered; no int64 overflow.",
+        technique="TLA+ spec (FakeQueue.tla) + trace validation with inferred oracle draws on the real UpdateQueue (FakeQueueTrace.tla)"),
+})
 
 NOT_YET = {
 }
